@@ -26,6 +26,12 @@ import (
 //	tputs  <padcharhex> <strhex> [<min_ms>]                                             reply: hex of the bytes written
 //	tgoto  <entry> <row> <cols>         cols = ints and inclusive ranges a-b, ','-joined  reply: hex of each result, ','-joined
 //	tcolor <entry> <fg> <bgs>           bgs  = same list syntax (negatives never in a range)
+//
+// History form of tputs / tgoto / tcolor (C15: the string for a position / a colour pair / the written bytes are a function of
+// the arguments alone, whatever the process evaluated before):  `<line as above>; <proghex> <param>…; <proghex> <param>…`
+// — the TParm calls listed after the first `;` are made, in order, BEFORE the calls of the line (static variables reset
+// first, as in tparm lines).  They come from the tparm generators (database strings, grammar-directed programs, random
+// byte strings) and from programs cut in the middle (unterminated conditionals, a `%` at the very end).
 
 // ---------------------------------------------------------------------------------------------- shared helpers
 
@@ -894,6 +900,131 @@ func genTParm(g *h.Gen) {
 	}
 }
 
+// ---------------------------------------------------------------------------------------------- history prefix
+
+// tiSplitHistory: "<main>; <call>; <call>" → the fields of the main part and the calls that precede it
+func tiSplitHistory(line string) (f []string, calls []string) {
+	parts := h.SplitTrim(line, ";")
+	if len(parts) == 0 {
+		return nil, nil
+	}
+	return strings.Fields(parts[0]), parts[1:]
+}
+
+// tiRunHistory makes the TParm calls of a history prefix on a fresh Terminfo value (the static variables are process
+// state: they are reset first, like at the start of every tparm line).
+func tiRunHistory(calls []string, tags map[string]bool) {
+	if len(calls) == 0 {
+		return
+	}
+	tags["history"] = true
+	ti := &terminfo.Terminfo{}
+	ti.TParm(tpResetProg, "")
+	for _, c := range calls {
+		f := strings.Fields(c)
+		if len(f) == 0 {
+			continue
+		}
+		prog := h.Unhex(f[0])
+		var params []interface{}
+		for _, p := range f[1:] {
+			if strings.HasPrefix(p, "s:") {
+				params = append(params, string(h.Unhex(p[2:])))
+			} else {
+				n, _ := strconv.ParseInt(strings.TrimPrefix(p, "i:"), 10, 64)
+				params = append(params, int(n))
+			}
+		}
+		tpTags(prog, tags)
+		ti.TParm(string(prog), params...)
+	}
+}
+
+func tiHistorySuffix(calls []string) string {
+	if len(calls) == 0 {
+		return ""
+	}
+	return "; " + strings.Join(calls, "; ")
+}
+
+// tiWatchdog runs body under a 5 s watchdog (a panic in the worker is reported the way the driver reports one).
+func tiWatchdog(what string, body func() h.Result) h.Result {
+	ch := make(chan h.Result, 1)
+	go func() {
+		defer func() {
+			if p := recover(); p != nil {
+				frame := ""
+				for _, l := range strings.Split(string(debug.Stack()), "\n") {
+					if strings.Contains(l, "gdamore/tcell") && !strings.Contains(l, "verif") {
+						frame = strings.TrimSpace(l)
+						break
+					}
+				}
+				ch <- h.Result{Obs: "PANIC", Findings: []h.Finding{{Class: "panic", Msg: fmt.Sprintf("%v at %s", p, frame)}}, Nontrivial: true, Tags: []string{"panic"}}
+			}
+		}()
+		ch <- body()
+	}()
+	tm := time.NewTimer(5 * time.Second)
+	defer tm.Stop()
+	select {
+	case r := <-ch:
+		return r
+	case <-tm.C:
+		return h.Result{Obs: "HANG", Findings: []h.Finding{{Class: "hang", Msg: what + " did not return within 5s"}}, Nontrivial: true, Tags: []string{"hang"}}
+	}
+}
+
+// tpCutCall: a well-formed program of the grammar generator cut somewhere in the middle (so that it may end inside a
+// conditional: after `%?`, inside a then-part that is or is not taken, inside an else-part, or on a lone `%`), or one of
+// the plain conditional shapes without its closing `%;`
+func tpCutCall(r *h.Rand) string {
+	if r.Chance(40) {
+		a, b := tpPrintable(r, 0, 3), tpPrintable(r, 0, 3)
+		shapes := []string{"%?%p1%t" + a, "%?%p1%t" + a + "%e" + b, "%?%p1%t" + a + "%e%p2%t" + b, "%?%p1%t%?%p2%t" + a + "%;" + b,
+			"%?%p1%t" + a + "%e%?%p2%t" + b + "%e", "%?%p1%p2%=%t" + a + "%e" + b, "%?%p1%{8}%<%t3%p1%d%e%p1%{16}%<%t9%p1%{8}%-%d", "%?"}
+		return tpCall(h.Pick(r, shapes), tpI(h.Pick(r, []int{0, 1, 0, 1, 7, 8, 300})), tpI(h.Pick(r, []int{0, 1, 9})))
+	}
+	for try := 0; try < 20; try++ {
+		c := tpGrammarCall(r)
+		f := strings.Fields(c)
+		prog := h.Unhex(f[0])
+		if len(prog) < 4 {
+			continue
+		}
+		cut := r.Range(1, len(prog)-1)
+		return strings.TrimSpace(h.Hex(prog[:cut]) + " " + strings.Join(f[1:], " "))
+	}
+	return tpCall("%?%p1%t", tpI(0))
+}
+
+// tiHistoryCalls: 1..4 preceding TParm calls
+func tiHistoryCalls(r *h.Rand, dbs []tpDBStr) []string {
+	var calls []string
+	for k := r.Range(1, 4); k > 0; k-- {
+		switch x := r.Intn(10); {
+		case x < 4:
+			calls = append(calls, tpCutCall(r))
+		case x < 6:
+			calls = append(calls, tpGrammarCall(r))
+		case x < 8:
+			calls = append(calls, tpRandomCall(r))
+		default:
+			d := h.Pick(r, dbs)
+			var ps []string
+			for i := 0; i < d.arity; i++ {
+				if d.str {
+					ps = append(ps, tpS(tpPrintable(r, 0, 6)))
+				} else {
+					ps = append(ps, tpI(h.Pick(r, tpB)))
+				}
+			}
+			calls = append(calls, tpCall(d.s, ps...))
+		}
+	}
+	return calls
+}
+
 // ---------------------------------------------------------------------------------------------- tputs
 
 var (
@@ -904,11 +1035,17 @@ var (
 var tputsSlow int32
 
 func execTPuts(line string) h.Result {
-	f := strings.Fields(line)
+	return tiWatchdog("TPuts", func() h.Result { return tputsBody(line) })
+}
+
+func tputsBody(line string) h.Result {
+	f, hist := tiSplitHistory(line)
 	for len(f) < 3 {
 		f = append(f, "-")
 	}
 	pad, s := h.Unhex(f[1]), string(h.Unhex(f[2]))
+	tags := map[string]bool{}
+	tiRunHistory(hist, tags)
 	ti := &terminfo.Terminfo{PadChar: string(pad)}
 	// TPuts runs under a deadline: a tree that sleeps where it must not (or far longer than the string asks) would otherwise
 	// turn the run into hours of sleeping.  The call that overran is abandoned (it owns its buffer) and reported.
@@ -941,7 +1078,6 @@ func execTPuts(line string) h.Result {
 	res.Derived = []string{"tputsref " + f[2] + " => " + res.Obs}
 	has := strings.Contains(s, "$<")
 	res.Nontrivial = has
-	tags := map[string]bool{}
 	if has {
 		tags["marker"] = true
 		for _, m := range tputsMarker.FindAllStringSubmatch(s, -1) {
@@ -1028,6 +1164,12 @@ func genTPuts(g *h.Gen) {
 		}
 		emit("-", sb.String(), "")
 	}
+	// histories: arbitrary TParm calls precede the TPuts call in the same process
+	hdbs := tpDBStrings()
+	hs := h.SortedKeys(dbs)
+	for i := g.N(150, 5000); i > 0 && len(hs) > 0; i-- {
+		emit("-", h.Pick(r, hs), tiHistorySuffix(tiHistoryCalls(r, hdbs)))
+	}
 	if g.Thorough() { // the Go-side timing oracle: PadChar set => the delay is honoured; PadChar empty => no sleep
 		for _, t := range []struct {
 			s  string
@@ -1047,18 +1189,27 @@ func genTPuts(g *h.Gen) {
 func tiLookup(name string) *terminfo.Terminfo { return terminfo.VerifEntries()[name] }
 
 func execTGoto(line string) h.Result {
-	f := strings.Fields(line)
+	return tiWatchdog("TGoto", func() h.Result { return tgotoBody(line) })
+}
+
+func tgotoBody(line string) h.Result {
+	f, hist := tiSplitHistory(line)
+	if len(f) != 4 {
+		return h.Result{Obs: "bad-line"}
+	}
 	ti, row := tiLookup(f[1]), h.Atoi(f[2])
 	if ti == nil {
 		return h.Result{Obs: "no-entry", Tags: []string{"no-entry"}}
 	}
+	tags := map[string]bool{"tgoto": true}
+	tiRunHistory(hist, tags)
 	var outs []string
 	for _, c := range tiList(f[3]) {
 		outs = append(outs, h.Hex([]byte(ti.TGoto(c, row))))
 	}
 	obs := strings.Join(outs, ",")
-	return h.Result{Obs: obs, Nontrivial: true, Tags: []string{"tgoto"},
-		Derived: []string{"tgotoref " + f[1] + " " + f[2] + " " + f[3] + " => " + obs}}
+	return h.Result{Obs: obs, Nontrivial: true, Tags: tiTagList(tags),
+		Derived: []string{"tgotoref " + f[1] + " " + f[2] + " " + f[3] + tiHistorySuffix(hist) + " => " + obs}}
 }
 
 func genTGoto(g *h.Gen) {
@@ -1076,26 +1227,46 @@ func genTGoto(g *h.Gen) {
 		}
 		cols = "0-300"
 	}
-	for _, e := range tiEntries() {
+	ents := tiEntries()
+	for _, e := range ents {
 		for _, row := range S {
 			g.Emit("tgoto %s %d %s", e.name, row, cols)
 		}
 	}
+	// histories: arbitrary TParm calls precede the TGoto calls in the same process (emitted last: what a history leaves
+	// behind in a defective tree must not reach the plain lines above)
+	dbs := tpDBStrings()
+	for i := g.N(300, 8000); i > 0; i-- {
+		var cs []int
+		for k := g.R.Range(1, 5); k > 0; k-- {
+			cs = append(cs, h.Pick(g.R, S))
+		}
+		g.Emit("tgoto %s %d %s%s", h.Pick(g.R, ents).name, h.Pick(g.R, S), tiShowList(cs), tiHistorySuffix(tiHistoryCalls(g.R, dbs)))
+	}
 }
 
 func execTColor(line string) h.Result {
-	f := strings.Fields(line)
+	return tiWatchdog("TColor", func() h.Result { return tcolorBody(line) })
+}
+
+func tcolorBody(line string) h.Result {
+	f, hist := tiSplitHistory(line)
+	if len(f) != 4 {
+		return h.Result{Obs: "bad-line"}
+	}
 	ti, fg := tiLookup(f[1]), h.Atoi(f[2])
 	if ti == nil {
 		return h.Result{Obs: "no-entry", Tags: []string{"no-entry"}}
 	}
+	tags := map[string]bool{"tcolor": true, "colors:" + strconv.Itoa(ti.Colors): true}
+	tiRunHistory(hist, tags)
 	var outs []string
 	for _, bg := range tiList(f[3]) {
 		outs = append(outs, h.Hex([]byte(ti.TColor(fg, bg))))
 	}
 	obs := strings.Join(outs, ",")
-	return h.Result{Obs: obs, Nontrivial: true, Tags: []string{"tcolor", "colors:" + strconv.Itoa(ti.Colors)},
-		Derived: []string{"tcolorref " + f[1] + " " + f[2] + " " + f[3] + " => " + obs}}
+	return h.Result{Obs: obs, Nontrivial: true, Tags: tiTagList(tags),
+		Derived: []string{"tcolorref " + f[1] + " " + f[2] + " " + f[3] + tiHistorySuffix(hist) + " => " + obs}}
 }
 
 func genTColor(g *h.Gen) {
@@ -1108,10 +1279,20 @@ func genTColor(g *h.Gen) {
 		}
 		bgs = "-1,0-300"
 	}
-	for _, e := range tiEntries() {
+	ents := tiEntries()
+	for _, e := range ents {
 		for _, fg := range C {
 			g.Emit("tcolor %s %d %s", e.name, fg, bgs)
 		}
+	}
+	// histories: arbitrary TParm calls precede the TColor calls in the same process (emitted last, see genTGoto)
+	dbs := tpDBStrings()
+	for i := g.N(300, 8000); i > 0; i-- {
+		var bs []int
+		for k := g.R.Range(1, 4); k > 0; k-- {
+			bs = append(bs, h.Pick(g.R, C))
+		}
+		g.Emit("tcolor %s %d %s%s", h.Pick(g.R, ents).name, h.Pick(g.R, C), tiShowList(bs), tiHistorySuffix(tiHistoryCalls(g.R, dbs)))
 	}
 }
 
